@@ -191,19 +191,25 @@ def resolve (B : Builtins) : Chain → Name → Res (Chain × Option Symbol)
           | none => .ok ([st], none)
         else .ok ([st], none)
 
-/-- `DefineLocal` (symbol_table.go:191-212): chain after the call, symbol, `exists` -/
+/-- the part of `DefineLocal` that creates the local symbol -/
+def defineNewLocal (B : Builtins) (st : Tab) (ps : Chain) (name : Name) : Res (Chain × Symbol × Bool) := do
+  let index ← nextIndex (st :: ps)
+  let symbol : Symbol := { name := name, index := index, scope := .local }
+  let st1 := { st with numDefinition := st.numDefinition + 1,
+                       store := mapSet st.store name symbol }
+  let (st2, ps2) ← updateMaxDefs st1 ps (symbol.index + 1)
+  pure (shadowBuiltin B st2 name :: ps2, symbol, false)
+
+/-- `DefineLocal` (symbol_table.go): chain after the call, symbol, `exists`.  A BUILTIN entry in
+    the store is only the cache left by an earlier `Resolve`; it is replaced by the new local. -/
 def defineLocal (B : Builtins) : Chain → Name → Res (Chain × Symbol × Bool)
   | [], _ => nilDeref
   | st :: ps, name =>
     match mapGet st.store name with
-    | some symbol => .ok (st :: ps, symbol, true)
-    | none => do
-      let index ← nextIndex (st :: ps)
-      let symbol : Symbol := { name := name, index := index, scope := .local }
-      let st1 := { st with numDefinition := st.numDefinition + 1,
-                           store := mapSet st.store name symbol }
-      let (st2, ps2) ← updateMaxDefs st1 ps (symbol.index + 1)
-      pure (shadowBuiltin B st2 name :: ps2, symbol, false)
+    | some symbol =>
+      if symbol.scope = .builtin then defineNewLocal B st ps name
+      else .ok (st :: ps, symbol, true)
+    | none => defineNewLocal B st ps name
 
 /-- `defineConstLit` (symbol_table.go:214-230) -/
 def defineConstLit (B : Builtins) : Chain → Name → Res (Chain × Symbol × Bool)
